@@ -133,7 +133,8 @@ def _expand_ctx(e, dom, cache, ctx):
                     cands.append([z3.IntVal(v, ctx) for v in dom])
                 else:
                     cands.append(g.get(srt.sexpr(), []))
-            if e.is_forall() and all(cands) and len(list(itertools.islice(itertools.product(*cands), 3000))) < 3000:
+            n_arr = sum(1 for srt in sorts if srt != z3.IntSort(ctx))
+            if e.is_forall() and n_arr <= 1 and all(cands) and len(list(itertools.islice(itertools.product(*cands), 600))) < 600:
                 parts = []
                 for vals in itertools.product(*cands):
                     inst = z3.substitute_vars(body, *reversed(list(vals)))
